@@ -30,9 +30,9 @@ type EngCase struct {
 	ChdirTo     string `json:"chdir_to"`     // "" | "parent" | "elsewhere": working directory during the run
 	// MoveAfterCache changes the working directory between building the file cache and parsing / running:
 	// what the cache was built from must not be looked up again relative to the new place.
-	MoveAfterCache bool `json:"move_after_cache,omitempty"`
-	MissingFile string `json:"missing_file,omitempty"`
-	Unreadable  string `json:"unreadable,omitempty"`
+	MoveAfterCache bool   `json:"move_after_cache,omitempty"`
+	MissingFile    string `json:"missing_file,omitempty"`
+	Unreadable     string `json:"unreadable,omitempty"`
 	// results
 	runs []engRun
 }
